@@ -430,6 +430,30 @@ M('c18-file-digest-eintr', 'C18', 'src/utilities/qhash.c',
   'H8', 'qhashmd5_file', 'a negative read result reaches the digest update and the remaining-count arithmetic')
 
 
+M('c17-makeword-spin', 'C17', 'src/internal/qinternal.c',
+  "    for (len = 0; ((str[len] != stop) && (str[len])); len++);\n",
+  "    for (len = 0; ((str[len] != stop) && (str[len])); ) {\n        if (str[len] == '\\r') continue;\n        len++;\n    }\n",
+  'LP1', '_q_makeword', 'a continue before the only increment: the scan spins on a carriage return')
+M('c17-aconf-blank-skip-spin', 'C17', 'src/extensions/qaconf.c',
+  "            for (; (*wp1 == ' ' || *wp1 == '\\t'); wp1++)\n",
+  "            for (; (*wp1 == ' ' || *wp1 == '\\t'); ) { if (*wp1 == ' ') wp1++; }\n",
+  'LP1', None, 'blank-skipping loop does not advance over a tab')
+
+
+M('c17-expansion-budget-dropped', 'C17', 'src/extensions/qconfig.c',
+  "            produced += strlen(value) + 1;\n            if (produced > _MAX_EXPANSION) {\n                return value;\n            }\n",
+  "            produced += strlen(value) + 1;\n",
+  'LP2', '_parsestr', 'the budget of the ${} expansion loop is counted but never tested')
+M('c17-expansion-budget-not-counted', 'C17', 'src/extensions/qconfig.c',
+  "            produced += strlen(value) + 1;\n            if (produced > _MAX_EXPANSION) {\n                return value;\n            }\n",
+  "            if (produced > _MAX_EXPANSION) {\n                return value;\n            }\n",
+  'LP2', '_parsestr', 'the budget of the ${} expansion loop is tested but never counted')
+M('c17-include-budget-dropped', 'C17', 'src/extensions/qconfig.c',
+  "            produced += strlen(str) + 1;\n            if (produced > _MAX_EXPANSION) {",
+  "            produced += strlen(str) + 1;\n            if (produced > _MAX_EXPANSION && strp == NULL) {\n                produced = 0;\n            } else if (false) {",
+  'LP2', 'qconfig_parse_file', 'the include budget no longer leaves the loop')
+
+
 def run_selftest(prop, rep, rule_fn, config='cmake-release'):
     """Apply every mutant of `prop` to a scratch copy, run rule_fn(prog, report) on it, and
     require a finding of the expected rule (and function)."""
